@@ -63,6 +63,7 @@ string cb_script;
 int run_ret_cb(mixed el, string script) { run(script); return 1; }
 int cmp_cb(mixed x, mixed y) { if (cb_script) { string t; t = cb_script; cb_script = 0; run(t); } return x > y; }
 mixed fp_target(string script) { run(script); return 7; }
+void ed_exit() { rec("EDEXIT " + me()); }
 
 int cmd_x(string arg) { rec("X " + me()); hook("x"); return 1; }
 
@@ -88,6 +89,7 @@ void set_tag(string t) { tag = t; master()->reg(t, this_object()); master()->reg
 void set_hb(int n) { int r; r = set_heart_beat(n); rec("HBSET " + me() + " " + n + " q=" + query_heart_beat(this_object())); }
 void set_script(string h, string s) { if (!scripts) scripts = ([ ]); scripts[h] = s; }
 void do_move(object dest) { move_object(dest); }
+void do_move_str(string dest) { move_object(dest); }
 
 // C08: LPC-visible view of the object world, one record
 string wtag(object o) { string t; if (!o) return "0"; t = o->me(); return t ? t : file_name(o); }
@@ -153,6 +155,13 @@ void wop(string *a) {
       o = ob_of(a[1]); d = ob_of(a[2]);
       if (o && d) { e = catch(o->do_move(d)); rec("WMOVE " + a[1] + " " + a[2] + " err=" + (e ? 1 : 0)); }
       else rec("WMOVE " + a[1] + " " + a[2] + " skip");
+    }
+    break;
+  case "wmoves":  // wmoves <what> <file>: move_object with a file name as destination (loads it when needed)
+    {
+      mixed e;
+      o = ob_of(a[1]);
+      if (o) { e = catch(o->do_move_str(a[2])); rec("WMOVES " + a[1] + " " + a[2] + " err=" + (e ? 1 : 0)); }
     }
     break;
   case "wdest":   // wdest <ob>
@@ -571,13 +580,14 @@ void do_op(string op) {
       case "find_object": e = catch(r = find_object(p1)); break;
       case "dumpallobj": e = catch(dumpallobj(p1)); break;
       case "dump_prog": e = catch(dump_prog(this_object(), 0, p1)); break;
+      case "ed": e = catch(ed(p1, "ed_exit")); break;
       default: rec("BADFE " + a[2]);
       }
       rec("FEDONE " + a[1] + " " + (e ? "err" : (stringp(r) ? "str" : (arrayp(r) ? "arr" : (objectp(r) ? "ob" : "" + r)))));
       if (objectp(r) && r != this_object()) destruct(r);
     }
     break;
-  case "wclone": case "wload": case "whold": case "wdump": case "walk": case "lname": case "wmove": case "wdest":
+  case "wclone": case "wload": case "whold": case "wdump": case "walk": case "lname": case "wmove": case "wmoves": case "wdest":
     wop(a);
     break;
   case "mk": case "put": case "cyc": case "uncyc": case "share": case "cov": case "covf": case "itv": case "drop": case "clearall": case "rb": case "many": case "use": case "memstat": case "rcall": case "dslot": case "dkids":
